@@ -1,1 +1,46 @@
-/-! # C13 — property theorems (to be filled) -/
+import PraatModel.Props.C11
+import PraatModel.Props.C12
+
+/-!
+# C13 — copy-returning operations never mutate; failed mutations change nothing
+
+The model is purely functional: a copy-returning operation cannot touch its receiver, and a mutator that returns
+`.error` returns no new state at all.  What these statements are worth is decided by the correspondence check, which
+re-runs every history on the real objects and compares snapshots of receiver and arguments before and after each
+call, on the success and on the exception path (harness/props/C13.py).  The theorems below record the part that IS a
+property of the algorithm: which failure causes are detected before anything is modified.
+-/
+namespace C13
+
+/-- Textgrid mutators (addTier, removeTier, renameTier, replaceTier): a failing step leaves the textgrid unchanged -/
+theorem tg_mutator_atomic (g : Tg Int) (op : C12.TgOp) (e : Err) (h : C12.step g op = .error e) :
+    C12.run g [op] = g := C12.mutator_atomic g op e h
+
+/-- tier mutators (insertEntry, deleteEntry): a failing step leaves the tier unchanged, along any history -/
+theorem tier_mutator_atomic (t : ITier Int) (op : C11.Op) (e : Err) (h : C11.step t op = .error e) :
+    C11.run t [op] = t := by
+  simp [C11.run, h]
+
+/-- `addTier`: both failure causes (name clash, span change under reportingMode='error') are decided from the
+arguments alone, before the tier list or the span is touched -/
+theorem addTier_fails_before_mutation (g : Tg Int) (t : AnyTier Int) (idx : Option Int) (rep : Report) (e : Err)
+    (h : g.addTier t idx rep = .error e) :
+    (t.name ∈ g.names ∧ e = .TierNameExistsError) ∨
+    (t.name ∉ g.names ∧ rep = .error ∧ e = .TextgridStateAutoModified) := by
+  by_cases hn : t.name ∈ g.names
+  · left; rw [C12.addTier_dup g t idx rep hn] at h; cases h; exact ⟨hn, rfl⟩
+  · right
+    by_cases hr : rep = .error ∧ C12.spanChanges g.lo g.hi t = true
+    · obtain ⟨hr1, hr2⟩ := hr
+      subst hr1
+      rw [C12.addTier_report g t idx hn hr2] at h; cases h; exact ⟨hn, rfl, rfl⟩
+    · obtain ⟨g', hg', _⟩ := C12.addTier_spec g t idx rep hn hr
+      rw [hg'] at h; cases h
+
+/-- collision in `error` mode is detected before any entry is deleted or added -/
+theorem insertEntry_collision_atomic (t : ITier Int) (hwf : t.WF) (x : Iv Int) (hx : x.s < x.e) (hstr : pyStrip x.l = x.l)
+    (iv : Iv Int) (hiv : iv ∈ t.es) (hcol : iv.s < x.e ∧ x.s < iv.e) :
+    C11.run t [.insert x .error] = t := by
+  simp [C11.run, C11.step, C11.insert_error t hwf x hx hstr iv hiv hcol]
+
+end C13
